@@ -65,6 +65,7 @@ type exch struct {
 	KEnc  string `json:"kenc"`
 	KMac  string `json:"kmac"`
 	SSC   string `json:"ssc_before"`
+	CLA   byte   `json:"cla,omitempty"` // class byte of the PLAIN command handed to DoAPDU (the protected one must be 0C whatever this is)
 	INS   byte   `json:"ins"`
 	P1    byte   `json:"p1"`
 	P2    byte   `json:"p2"`
@@ -194,7 +195,7 @@ func (w *world) exchange(e exch, skipLe bool) (msg string, sent []byte) {
 				msg = fmt.Sprintf("DoAPDU panicked: %v", r)
 			}
 		}()
-		out, err = w.nfc.DoAPDU(iso7816.NewCApdu(0x00, e.INS, e.P1, e.P2, data, e.Ne), "c10")
+		out, err = w.nfc.DoAPDU(iso7816.NewCApdu(e.CLA, e.INS, e.P1, e.P2, data, e.Ne), "c10")
 	}()
 	if msg != "" {
 		return msg, sent
@@ -460,6 +461,13 @@ func TestHistories(t *testing.T) {
 			}
 			rdata := drawBytes(rt, rlen, label+"-rdata")
 			e := w.state(s.ins, p1, p2, data, s.ne, rdata, rsw)
+			// the plain command's class: normally 00; command chaining (10), an already
+			// SM-marked class and proprietary classes must still leave as class 0C with a
+			// MAC over the header as sent (the chip model verifies exactly that)
+			if rapid.IntRange(0, 3).Draw(rt, label+"-cla-kind") == 0 {
+				e.CLA = rapid.SampledFrom([]byte{0x10, 0x0C, 0x1C, 0x04, 0x80, 0x90, 0xFF}).Draw(rt, label+"-cla")
+				evid.Count(fmt.Sprintf("cmd-plain-class-%02x", e.CLA), 1)
+			}
 			skipLe := false
 			if inF15(c, s.nc, s.ne) {
 				if f15open {
